@@ -185,6 +185,62 @@ Compare(op, l, r) ==
   CASE op = "Eq" -> Eq(l, r) [] op = "NotEq" -> Neq(l, r) [] op = "Gt" -> Gt(l, r)
     [] op = "Lt" -> Lt(l, r) [] op = "LtE" -> Lte(l, r) [] op = "GtE" -> Gte(l, r)
 
+
+(***************************************************************************)
+(* fixed point (qlasskit/types/qfixed.py): a value of layout <<i, f>> is     *)
+(* [w |-> i + f, i, f, bits]: i integer bits least significant first, then  *)
+(* f fractional bits MOST significant first.  Arithmetic goes through the   *)
+(* "qint representation" (fraction reversed, then the integer part), i.e.   *)
+(* the scaled integer value * 2^f, least significant bit first.             *)
+(***************************************************************************)
+FX(i, f, bs) == [w |-> i + f, i |-> i, f |-> f, bits |-> bs]
+Rev(q) == [j \in 1..Len(q) |-> q[Len(q) + 1 - j]]
+IntPart(v)  == SubSeq(v.bits, 1, v.i)
+FracPart(v) == SubSeq(v.bits, v.i + 1, Len(v.bits))
+ToQintRepr(v) == Rev(FracPart(v)) \o IntPart(v)
+FromQintRepr(bs, f) == SubSeq(bs, f + 1, Len(bs)) \o Rev(SubSeq(bs, 1, f))
+FxFill(T, v) == IF Len(v.bits) >= T.w THEN v ELSE FX(T.i, T.f, v.bits \o Falses(T.w - Len(v.bits)))
+FixedTypes == << <<1,2>>, <<1,3>>, <<1,4>>, <<1,6>>, <<2,2>>, <<2,3>>, <<2,4>>, <<2,6>>, <<3,3>>, <<3,4>>, <<3,6>>, <<4,4>>, <<4,6>> >>
+\* QfixedImp.const(num/den) in layout <<i, f>>: the integer part modulo 2^i, the fraction truncated to f bits
+FxConst(i, f, num, den) ==
+  LET ip == (num \div den) % (2^i)
+      fr == ((num % den) * (2^f)) \div den          \* floor(frac * 2^f)
+  IN FX(i, f, [j \in 1..i |-> BoolN((ip \div (2^(j - 1))) % 2)] \o [j \in 1..f |-> BoolN((fr \div (2^(f - j))) % 2)])
+\* const_to_qtype for a float literal: the first shipped layout whose constant is within 0.05 of the literal
+FxLiteral(num, den) ==
+  LET C(k) == LET i == FixedTypes[k][1] f == FixedTypes[k][2] IN ((num \div den) % (2^i)) * (2^f) + (((num % den) * (2^f)) \div den)
+      D(k) == LET d == C(k) * den - num * (2^FixedTypes[k][2]) IN IF d < 0 THEN -d ELSE d
+      K == {k \in DOMAIN FixedTypes : 20 * D(k) < den * (2^FixedTypes[k][2])}
+  IN IF K = {} THEN FX(0, 0, <<>>)
+     ELSE LET k == CHOOSE x \in K : \A y \in K : x <= y IN FxConst(FixedTypes[k][1], FixedTypes[k][2], num, den)
+\* QfixedImp._align: the operand whose integer and fractional parts are both not longer is re-expressed in the
+\* layout of the other; <<>> when neither layout contains the other (TypeErrorException)
+FxWiden(v, T) == FX(T.i, T.f, IntPart(v) \o Falses(T.i - v.i) \o FracPart(v) \o Falses(T.f - v.f))
+FxAlign(l, r) ==
+  IF l.i = r.i /\ l.f = r.f THEN <<l, r>>
+  ELSE IF l.i >= r.i /\ l.f >= r.f THEN <<l, FxWiden(r, l)>>
+  ELSE IF r.i >= l.i /\ r.f >= l.f THEN <<FxWiden(l, r), r>>
+  ELSE <<>>
+FxEq(l0, r0) == LET p == FxAlign(l0, r0) IN Eq(TE(0, p[1].bits), TE(0, p[2].bits))       \* zip of the bit lists (equal lengths)
+FxNeq(l0, r0) == LET p == FxAlign(l0, r0) IN Neq(TE(0, p[1].bits), TE(0, p[2].bits))
+\* the Qint walk on the qint representations; after alignment there are no extra high bits
+FxGt(l0, r0) == LET p == FxAlign(l0, r0) IN Gt(TE(0, ToQintRepr(p[1])), TE(0, ToQintRepr(p[2])))
+FxLt(l, r)  == MkAnd({MkNot(FxGt(l, r)), MkNot(FxEq(l, r))})
+FxLte(l, r) == MkNot(FxGt(l, r))
+FxGte(l, r) == MkNot(FxLt(l, r))
+FxAdd(l0, r0) ==
+  LET p == FxAlign(l0, r0)
+      res == Add(8, TE(p[1].w, ToQintRepr(p[1])), TE(p[2].w, ToQintRepr(p[2])))         \* QintImp.add: the receiver is QintImp itself
+  IN FX(p[1].i, p[1].f, FromQintRepr(res.bits, p[1].f))
+FxNot(v) == FX(v.i, v.f, [j \in DOMAIN v.bits |-> MkNot(v.bits[j])])
+FxSub(cls, l0, r0) ==                  \* cls: the layout record of the receiver (the left operand's type)
+  LET p == FxAlign(l0, r0) IN FxNot(FxAdd(FxNot(FxFill(cls, p[1])), FxFill(cls, p[2])))
+\* Qfixed * integer constant: repeated addition
+FxMulConst(v, k) ==
+  LET RECURSIVE M(_, _) M(acc, n) == IF n = 0 THEN acc ELSE M(FxAdd(acc, v), n - 1)
+  IN IF k = 0 THEN FxConst(v.i, v.f, 0, 1) ELSE M(v, k - 1)
+FxRejects(l, r) == FxAlign(l, r) = <<>>
+
 \* value of a typed expression on a row (for the arithmetic check): sum of 2^(j-1) over the bits true on the row
 ValOn(v, env, U, row) ==
   LET RECURSIVE F(_) F(j) == IF j > Len(v.bits) THEN 0 ELSE (IF row \in SemN(v.bits[j], env, U) THEN 2^(j - 1) ELSE 0) + F(j + 1) IN F(1)
